@@ -180,6 +180,23 @@ pub open spec fn cell_after_sync(st: ServerState, ns: ServerState, fresh_ttl: Du
     }
 }
 
+/// (d) every TTL `sync` writes is the configured one: a record it touches stays alive for a full TTL.
+/// (a renamed record keeps the deadline it had under the old id — `change_id` does not touch it)
+pub open spec fn ttl_writes_ok(pre: &Session<'_>, t2: Map<SessionId, Duration>) -> bool {
+    let t1 = sv_ttl(pre.store);
+    forall |k: SessionId| #![auto] t2.contains_key(k) ==> (
+        t2[k] == pre.config.state.ttl
+        || t2[k] == t1[k]
+        || (k == spec_new_id(pre.id) && (spec_old_id(pre.id) matches Some(o) && t2[k] == t1[o])))
+}
+/// when a loaded, untouched session must have its TTL extended (TtlExtensionTrigger + threshold)
+pub open spec fn extension_due(cfg: &SessionStateConfig, remaining: Duration) -> bool {
+    cfg.extend_ttl == TtlExtensionTrigger::OnStateLoadsAndChanges
+    && match cfg.ttl_extension_threshold {
+        None => true,
+        Some(ratio) => dur_cmp(remaining, dur_mul_f32(cfg.ttl, ratio.0)) == Some(core::cmp::Ordering::Less),
+    }
+}
 // ---- finalize ------------------------------------------------------------------------------------
 pub open spec fn opt_str_eq(a: Option<String>, b: Option<String>) -> bool {
     match (a, b) { (Some(x), Some(y)) => x@ == y@, (None, None) => true, _ => false }
